@@ -422,6 +422,25 @@ GROUPS = {
             ("adopt_refines", ["gAdoptStep"], "AdoptRefines gAdoptStep {gAdoptStep.parent}", "exact adopt_of_step adopt_step"),
         ],
     },
+    "wrap": {
+        "import": "Haiway.Bridge.Wrap", "open": "Haiway.MiniPy Haiway.Bridge.Wrap",
+        "defs": {
+            name: Target("src/haiway/helpers/asynchrony.py", "_ExecutorWrapper", meth, params,
+                         {"_function": 0, "_loop": 1, "_executor": 2}, {},
+                         ext_functions={"copy_context": (163, []), "get_running_loop": (252, []), "partial": (250, ["*all"])},
+                         obj_attrs={"run": 251}, method_externals={"run_in_executor": (253, ["$recv", "@0", "@1", "@2"])})
+            for name, meth, params in (("gExecCall", "__call__", ["args", "kwargs"]),
+                                       ("gExecMethodCall", "__method_call__", ["__method_self", "args", "kwargs"]))
+        },
+        "obligations": [
+            ("executor_call_wires", ["gExecCall"], "CallWires gExecCall none",
+             "intro fn loopField executor kwargs args w hl hlf\n  unfold gExecCall\n"
+             "  rcases hlf with rfl | ⟨k, rfl⟩ <;> cases ho : w.outcome <;> wrap_eval"),
+            ("executor_method_call_wires", ["gExecMethodCall"], "∀ recv, CallWires gExecMethodCall (some recv)",
+             "intro recv fn loopField executor kwargs args w hl hlf\n  unfold gExecMethodCall\n"
+             "  rcases hlf with rfl | ⟨k, rfl⟩ <;> cases ho : w.outcome <;> wrap_eval"),
+        ],
+    },
     "completion": {
         "import": "Haiway.Bridge.Completion", "open": "Haiway.MiniPy Haiway.Bridge.Completion",
         "defs": {
